@@ -1,4 +1,4 @@
-CONSTANT Cfg <- Cfg_nested
+CONSTANT CfgSet <- S_nested
 INIT MCInit
 NEXT Next
 CHECK_DEADLOCK FALSE
